@@ -3,9 +3,12 @@
 (* (kind "layout") and every complete signing session (kind "session").     *)
 EXTENDS MC_AppImage, Json
 EmitB == /\ ImageTerminal => PrintT("B " \o ToJson([kind |-> "layout", areas |-> SetToSeq(img),
-                                                      file |-> file]))
+                                                      file |-> file, size |-> size,
+                                                      ulen |-> UnitLens[size]]))
          /\ SignTerminal  => PrintT("B " \o ToJson([kind |-> "session", plan |-> plan,
-                                                      contents |-> Contents]))
+                                                      contents |-> Contents, size |-> size,
+                                                      ulen |-> UnitLens[size]]))
          /\ AuthTerminal  => PrintT("B " \o ToJson([kind |-> "auth", pre |-> apre, plan |-> aplan,
-                                                      contents |-> Contents]))
+                                                      contents |-> Contents, size |-> size,
+                                                      ulen |-> UnitLens[size]]))
 =============================================================================
